@@ -1,13 +1,16 @@
 """C04 - JA4 fingerprints equal the FoxIO specification for every ClientHello.
 
-Structural clauses decided (DESIGN.md §5 C04):
- R1 GREASE table (16 values 0x0a0a + k*0x1010) and every GREASE filter tests membership in it with the right polarity
+Structural clauses decided:
+ R1 GREASE table (16 values 0x0a0a + k*0x1010); is_grease_value is plain membership in it; every GREASE filter tests
+    membership with the right polarity
  R2 version token table of TlsVersion Display; legacy-version code table
  R3 an unknown legacy version is reported as Unknown (token `00`)
- R4 with supported_versions present the version is derived from that extension's contents
+ R4 with supported_versions present the version is derived from that extension's contents; that branch does not look at the
+    legacy version, and the legacy version is consulted only when the extension is absent
  R5 sorting and SNI/ALPN removal only in the sorted variant; signature algorithms never sorted; counts saturate at 99
- R6 an empty cipher / extension list hashes to `000000000000`
+ R6 an empty cipher / extension list hashes to `000000000000`; the emptiness test looks at the very string that is hashed
  R7 hash12 = first 12 lowercase hex characters of SHA-256; JA4_a field order, SNI flag polarity, `_` separators
+ R8 SNI and ALPN are taken from the first entry of their lists
 """
 import struct
 
